@@ -49,7 +49,12 @@ TStep == /\ TraceLog[l].e = "S"
                                  IF i = rec.ev.id THEN [addr |-> a, port |-> rec.ev.port] ELSE ann[i]]
                         ELSE ann
                 lines == IF "raw" \in DOMAIN rec THEN rec.raw ELSE <<>>
-                off == Offending(lines, ann2)
+                \* the barrier ("-1 ? stats2") is answered by a block whose first line is "S iauth :<n>-<m> reqs alloc, ..." and
+                \* whose last line is "s", each on a line of its own (rec.bar = those two lines, or <<>> if the driver found none)
+                barOK == "bar" \notin DOMAIN rec
+                         \/ (Len(rec.bar) = 2 /\ Len(rec.bar[1]) > 9 /\ SubSeq(rec.bar[1], 1, 9) = T("S iauth :")
+                             /\ rec.bar[2] = T("s") /\ WellFormed(rec.bar[1]))
+                off == Offending(lines, ann2) \cup (IF barOK THEN {} ELSE {[n |-> 0, v |-> {"P09_form"}]})
             IN /\ ann' = ann2
                /\ IF isC /\ a = AD!Bad THEN PrintT("@@M" \o ToJson([l |-> l, what |-> "announced address text not understood by Denote"])) ELSE TRUE
                /\ IF off = {} THEN TRUE ELSE PrintT("@@V" \o ToJson([l |-> l, bad |-> off]))
